@@ -16,6 +16,7 @@
    store of op lists, [sruns] gives the reference answers from the expressions the readers denote. *)
 From Coq Require Import ZArith List Lia Bool.
 From PV Require Import Base.PySlice Base.NpSearch C01.Model C02.Model C02.Spec C02.Proofs.
+From PV Require Import C01.Spec C02.Proofs2.
 Import ListNotations.
 Open Scope Z_scope.
 
@@ -124,6 +125,33 @@ Theorem C02_tree_commute : forall (A D : Type) (sem : code -> D -> A -> option A
 Proof. intros. eapply hrun_tree_commute; eassumption. Qed.
 Print Assumptions C02_tree_commute.
 
+(* ---- with C01: the abstract row reader instantiated by the model of the multi-file reader
+   (PV.C01.Model.getitem_rows: bounds, _get_subitems, per-part reads, np.vstack) and C01's theorem
+   C01_rows_numpy -- the premise on [rows] is discharged on C01's whole regime (integers in [-n, n),
+   unit-step slices selecting >= 1 row, non-empty increasing lists), for every split into files ---- *)
+Theorem C02_reader_commute : forall (A D : Type) (sem : code -> D -> A -> option A) (dsem : code -> D -> option D)
+    (d0 : D) (parts : list (list (list A))) (e : expr) (E : arr A D) (it : item) (cols : option colsel),
+  valid_item (zlen (concat parts)) it ->
+  eval_eager sem dsem e (mkarr d0 (concat parts)) = Some E ->
+  reader_getitem sem dsem (getitem_rows parts) d0 (compile e) it cols =
+    match cols with
+    | Some cs => if is_whole it then Some (GReader (compile (ECols e cs)))
+                 else option_map GRows (then_index E it cols)
+    | None => option_map GRows (then_index E it cols)
+    end.
+Proof. exact (@reader_commute). Qed.
+Print Assumptions C02_reader_commute.
+
+Theorem C02_reader_tree_commute : forall (A D : Type) (sem : code -> D -> A -> option A) (dsem : code -> D -> option D)
+    (d0 : D) (parts : list (list (list A))) (cmds : list cmd) (h : heap) (os : list (@out A D))
+    (ros : list (option (@out A D))),
+  Forall (valid_cmd (zlen (concat parts))) cmds ->
+  hrun sem dsem (getitem_rows parts) d0 h_append_op cmds heap0 = Some (h, os) ->
+  sruns sem dsem (mkarr d0 (concat parts)) cmds [EBase] = Some ros ->
+  Forall2 (@agrees A D) os ros.
+Proof. exact (@reader_tree_commute). Qed.
+Print Assumptions C02_reader_tree_commute.
+
 (* ---- the list(...) copy in _append_op is what independence rests on: without it (parent and clone
    share one list object) a history exists in which re-reading the parent gives another answer ---- *)
 Definition ex_sem (c : code) (d : Z) (a : Z) : option Z := Some (a + 10).
@@ -203,3 +231,11 @@ Example C02_ex_tree_alias :
   option_map snd (hrun ex_sem ex_dsem ex_rows 0 h_append_op_alias ex_tree heap0) <>
   option_map snd (hrun ex_sem ex_dsem ex_rows 0 h_append_op ex_tree heap0).
 Proof. vm_compute. discriminate. Qed.
+
+(* three files of 1, 3 and 2 rows; (R[:, ::-1] + 10)[1:5] read across both file boundaries *)
+Example C02_ex_reader :
+  reader_getitem ex_sem ex_dsem (getitem_rows [[[1; 2]]; [[3; 4]; [5; 6]; [7; 8]]; [[9; 10]; [11; 12]]]) 0
+                 (compile (EBinL BAdd (ECols EBase (CSlice None None (Some (-1)))) (SInt 10)))
+                 (ISlice (Some 1) (Some 5) None) None =
+  Some (GRows (mkarr 0 [[14; 13]; [16; 15]; [18; 17]; [20; 19]])).
+Proof. vm_compute. reflexivity. Qed.
